@@ -13,7 +13,7 @@ TStep ==
      \/ ~void /\ Ev.ev = "cfg" /\ Cfg(Ev.ncb)
      \/ ~void /\ Ev.ev = "hsend" /\ HostSend(Ev.g, Ev.t)
      \/ ~void /\ Ev.ev = "unsolicited" /\ Unsolicited
-     \/ ~void /\ Ev.ev = "call" /\ Call(Ev.i, Ev.kind, Ev.gids, Ev.delays, Ev.t)
+     \/ ~void /\ Ev.ev = "call" /\ Call(Ev.i, Ev.kind, Ev.gids, Ev.delays, Ev.t, Ev.faulty)
      \/ ~void /\ Ev.ev = "drecv" /\ DevRecv(Ev.g, Ev.t)
      \/ ~void /\ Ev.ev = "dclose" /\ DevClose(Ev.t)
      \/ ~void /\ Ev.ev = "state" /\ State(Ev.connected)
